@@ -21,13 +21,23 @@ class FakeClock:
 
     def __init__(self):
         self.us = 0
+        self.plan = []       # increments applied after the next reads of the current request
+        self.reads = 0       # number of datetime.now() reads since begin()
         clock = self
 
         class _DT(_dt.datetime):
             @classmethod
             def now(cls, tz=None):
-                return EPOCH + clock.us * US
+                v = EPOCH + clock.us * US
+                clock.reads += 1
+                if clock.plan:
+                    clock.us += clock.plan.pop(0)     # the clock advances between two reads of one request
+                return v
         self.datetime = _DT
+
+    def begin(self, t, incs=()):
+        """start of a request at clock value `t`; read n of the request returns t + incs[0] + … + incs[n-1]"""
+        self.us, self.plan, self.reads = t, list(incs), 0
 
     def install(self):
         import BPTK_Py.server.bptkServer as S
@@ -184,29 +194,40 @@ class Server:
         shutil.rmtree(self.dir, ignore_errors=True)
 
 
-def ev_line(now, ev):
+def norm(item):
+    """history items are (t, event) or (t, event, increments)"""
+    return (item[0], tuple(item[1]), list(item[2]) if len(item) > 2 and item[2] else [])
+
+
+def ev_line(now, ev, incs=()):
     k = ev[0]
+    head = f"evr {now} {','.join(map(str, incs)) if incs else '-'}"
     if k == "create":
-        return f"ev {now} create {micros(ev[1])}"
+        return f"{head} create {micros(ev[1])}"
     if k == "access":
-        return f"ev {now} access {ev[1]} {ev[2]}"
+        return f"{head} access {ev[1]} {ev[2]}"
     if k == "keepalive":
-        return f"ev {now} keepalive {ev[1]}"
+        return f"{head} keepalive {ev[1]}"
     if k == "stop":
-        return f"ev {now} stop {ev[1]}"
-    return f"ev {now} {k}"
+        return f"{head} stop {ev[1]}"
+    return f"{head} {k}"
 
 
-def obs_line(ok, o):
+def obs_line(ok, o, reads=None):
     live = ",".join("%d:%d:%d:%d" % t for t in o["live"])
     return "%s;live=%s;destroyed=%s;stored=%s" % ("ok" if ok else "err", live, ",".join(map(str, o["destroyed"])),
-                                                  ",".join("%d:%d" % kv for kv in sorted(o["stored"].items())))
+                                                  ",".join("%d:%d" % kv for kv in sorted(o["stored"].items()))) + (
+        "" if reads is None else ";reads=%d" % reads)
 
 
 # ------------------------------------------------------------------ reference check of the statement (independent of the Lean model)
-def ref_check(before, now, ev, ok, reported, after):
-    """before/after: observations around one request at clock value `now`. Returns [(key, text)]."""
+def ref_check(before, now, ev, ok, reported, after, hi=None):
+    """before/after: observations around one request whose clock reads all lie in [now, hi] (`now` = its first
+    read = its arrival; hi = now when the clock does not move inside the request). A claim of the statement is
+    checked when it is decided for EVERY placement of the reads in that interval. Returns [(key, text)]."""
     out = []
+    lo = now
+    hi = now if hi is None else hi
     b = {i: (l, t, s) for i, l, t, s in before["live"]}
     a = {i: (l, t, s) for i, l, t, s in after["live"]}
     target = ev[1] if ev[0] in ("access", "keepalive") else None
@@ -217,31 +238,42 @@ def ref_check(before, now, ev, ok, reported, after):
     if stopped is not None and (stopped in a or stopped in after["stored"]):
         out.append(("stop-not-gone", f"stop-instance {stopped} at {now}: afterwards live={stopped in a}, state file={stopped in after['stored']}"))
     for k, (l, tau, _) in b.items():
-        exp = now >= l + tau
         dcount = after["destroyed"].count(k) - before["destroyed"].count(k)
         if k == stopped:
             continue            # removed on explicit request, not by the timeout
-        if not exp:
+        if hi < l + tau:        # the whole request lies before last access + timeout
             if k not in a:
-                out.append(("removed-early", f"instance {k} (last access {l}, timeout {tau}) removed at {now} < {l + tau} by {ev}"))
+                out.append(("removed-early", f"instance {k} (last access {l}, timeout {tau}) removed by {ev} in [{lo},{hi}] < {l + tau}"))
             elif a[k][1] != tau or a[k][0] < l:
-                out.append(("timer-corrupted", f"instance {k}: (last, timeout) {(l, tau)} -> {a[k][:2]} by {ev} at {now}"))
+                out.append(("timer-corrupted", f"instance {k}: (last, timeout) {(l, tau)} -> {a[k][:2]} by {ev} in [{lo},{hi}]"))
             if dcount != 0:
-                out.append(("destroyed-while-alive", f"instance {k} destroyed {dcount}x at {now} < {l + tau}"))
-        elif trigger and target != k:
-            if k in a:
-                out.append(("immortal", f"instance {k} (last access {l}, timeout {tau}) still present after trigger {ev} at {now} >= {l + tau}"))
-            if dcount != 1:
-                out.append(("release-count", f"expired instance {k}: destroy() called {dcount}x on its removal by {ev} at {now}"))
-        if target == k and tau > 0 and trigger:
-            if k not in a or a[k][0] != now:
-                out.append(("access-no-reset", f"{ev} at {now} on present instance {k} (timeout {tau}): afterwards {a.get(k)}"))
+                out.append(("destroyed-while-alive", f"instance {k} destroyed {dcount}x in [{lo},{hi}] < {l + tau}"))
+        elif lo >= l + tau:     # the timeout had elapsed when the request arrived
+            if trigger and target != k:
+                if k in a:
+                    out.append(("immortal", f"instance {k} (last access {l}, timeout {tau}) still present after trigger {ev} at {lo} >= {l + tau}"))
+                if dcount != 1:
+                    out.append(("release-count", f"expired instance {k}: destroy() called {dcount}x on its removal by {ev} at {lo}"))
+        elif target != k:       # the deadline falls between two reads of this request: either outcome, but consistently
+            if (k in a and dcount != 0) or (k not in a and dcount != 1):
+                out.append(("release-count", f"instance {k} (deadline {l + tau} inside [{lo},{hi}]): present afterwards={k in a}, destroy() called {dcount}x by {ev}"))
+        if target == k and hi - lo < tau and trigger:
+            if k not in a:
+                out.append(("access-no-reset", f"{ev} in [{lo},{hi}] on present instance {k} (timeout {tau}): instance gone afterwards"))
+            elif a[k][0] < lo:
+                out.append(("timestamp-before-request", f"{ev} arriving at {lo} on present instance {k}: stored last access {a[k][0]} is earlier than every clock read of the request"))
+            elif a[k][0] > hi:
+                out.append(("access-no-reset", f"{ev} in [{lo},{hi}] on present instance {k} (timeout {tau}): afterwards {a.get(k)}"))
             if not ok and not (ev[0] == "access" and ev[2] == "step" and not b[k][2]):
                 out.append(("live-id-refused", f"{ev} at {now} on present instance {k} (timeout {tau}) answered non-200"))
+    for k in a:
+        if k not in b and not (lo <= a[k][0] <= hi):
+            key = "timestamp-before-request" if a[k][0] < lo else "access-no-reset"
+            out.append((key, f"{ev} in [{lo},{hi}] created / restored instance {k} with stored last access {a[k][0]} outside the request's clock reads"))
     if target is not None and target not in b:
-        if target in before["stored"] and before["stored"][target] > 0:
+        if target in before["stored"] and before["stored"][target] > hi - lo:
             if ev[0] == "access":
-                if not ok or target not in a or a[target][0] != now or a[target][1] != before["stored"][target]:
+                if not ok or target not in a or not (lo <= a[target][0] <= hi) or a[target][1] != before["stored"][target]:
                     out.append(("restore-failed", f"{ev} at {now} on externalised instance {target}: ok={ok}, afterwards {a.get(target)}"))
             elif not ok or target not in a:
                 out.append(("keep-alive-no-restore", f"keep-alive at {now} on timed-out instance {target} whose state is externalised "
@@ -274,7 +306,7 @@ def gen_timeout(rng):
         return {}                     # all units absent -> timedelta(0)
     if r == 12:
         return dict(rng.choice(ODD))  # the endpoint accepts negative and fractional numbers (outside its documented contract)
-    if r == 13 or r == 14:
+    if r in (9, 10, 13, 14):
         return rng.choice(SHORT)(rng)
     if r == 15:
         return rng.choice(LONG)(rng)
@@ -316,9 +348,30 @@ def next_event(rng, o, now, ncreated, max_inst):
         now2 = t if t >= now else now + rng.choice([0, 1, rng.range(0, 5000)])
     elif r < 8:
         now2 = now + rng.choice([0, 1, 999, 1000, rng.range(0, 3_000_000)])
+    elif r < 9:
+        # late in a wall-clock second: a timestamp truncated to whole seconds would lie almost a second back
+        now2 = (now // 10**6 + 1) * 10**6 - rng.choice([1, 2, 10, rng.range(1, 1000), rng.range(1, 100_000)])
+        if now2 < now:
+            now2 = now
     else:
         now2 = now + rng.range(0, 3 * 7 * 24 * 3600 * 10**6)
-    return now2, ev
+    return now2, ev, gen_incs(rng, ev, len(live))
+
+
+def gen_incs(rng, ev, nlive):
+    """clock increments between the reads of ONE request (µs): none (fixed clock), all 1 (so that an expiry
+    boundary aimed at by the start time falls between two particular reads), or small random steps"""
+    if ev[0] in ("loadstate", "stop", "savestate"):
+        return []        # load-state reads once per stored file in directory-listing order: not modelled with a moving clock
+    r = rng.below(10)
+    if r < 4:
+        return []
+    n = nlive + 3
+    if r < 7:
+        return [1] * rng.range(1, n)
+    if r < 9:
+        return [rng.choice([0, 0, 1, 1, 2, 3, 5, rng.range(0, 50)]) for _ in range(rng.range(1, n))]
+    return [rng.choice([0, 1, rng.range(0, 2000), rng.range(0, 1_200_000)]) for _ in range(rng.range(1, n))]
 
 
 def pattern_history(rng):
@@ -376,7 +429,7 @@ def pattern_history(rng):
     if rng.chance(1, 3):
         at(rng.choice([("access", B, "results"), ("metrics",)]), rng.range(0, small))    # not yet expired: must survive
     # idle past the restored instance's timeout, then a trigger
-    d3 = rng.choice([0, 0, 1, 2, -1, rng.range(0, 2 * tau)])
+    d3 = rng.choice([0, 0, 1, 2, -1, -1, -2, -3, rng.range(0, 2 * tau)])
     now = max(now, last_a + tau + d3)
     evs.append((now, trigger()))
     at(("fullmetrics",), rng.range(0, 2))
@@ -389,23 +442,40 @@ def pattern_history(rng):
         at(("access", A, rng.choice(["results", "step"])), rng.range(0, 3 * tau))   # restored once more
         now = now + tau
         evs.append((now, ("metrics",)))
-    return evs
+    # the clock advances inside the requests that do not address A (within the gap to the next request)
+    out = []
+    for i, (t, ev) in enumerate(evs):
+        budget = (evs[i + 1][0] - t) if i + 1 < len(evs) else 10
+        incs = []
+        if ev[0] in ("metrics", "fullmetrics", "create") or (ev[0] in ("access", "keepalive") and ev[1] != A):
+            if budget > 0 and rng.chance(1, 2):
+                for _ in range(rng.range(1, 5)):
+                    d = rng.choice([1, 1, 1, 0, 2])
+                    if sum(incs) + d <= budget:
+                        incs.append(d)
+        out.append((t, ev, incs))
+    return out
 
 
 def run_history(events, on_step=None):
-    """Replay [(now, ev)] on a fresh server under the controlled clock. Returns (lines, violations)."""
+    """Replay [(t, ev[, increments])] on a fresh server under the controlled clock. Returns (lines, violations)."""
     s = Server()
     lines, viols = [], []
     try:
         before = s.observe()
-        for idx, (now, ev) in enumerate(events):
-            s.clock.us = now
+        for idx, item in enumerate(events):
+            now, ev, incs = norm(item)
+            s.clock.begin(now, incs)
             ok, rep = s.do(ev)
+            reads = s.clock.reads
+            hi = now + sum(incs[:max(0, reads - 1)])      # value of the last read
+            s.clock.plan = []
             after = s.observe()
-            lines.append(obs_line(ok, after))
-            for key, text in ref_check(before, now, ev, ok, rep, after):
+            lines.append(obs_line(ok, after, reads))
+            for key, text in ref_check(before, now, ev, ok, rep, after, hi):
                 viols.append((idx, key, text))
             track(s, before, ev, after)
+            count_clock(before, now, hi, reads)
             before = after
             viols += destroy_once(s, idx)
     finally:
@@ -419,23 +489,34 @@ def generate_and_run(rng, n_events, max_inst):
     try:
         now, o = 0, s.observe()
         for idx in range(n_events):
-            now, ev = next_event(rng, o, now, len(s.uuid_of), max_inst)
-            s.clock.us = now
+            now, ev, incs = next_event(rng, o, now, len(s.uuid_of), max_inst)
+            s.clock.begin(now, incs)
             ok, rep = s.do(ev)
+            reads = s.clock.reads
+            hi = now + sum(incs[:max(0, reads - 1)])
+            s.clock.plan = []
             after = s.observe()
-            events.append((now, ev))
-            lines.append(obs_line(ok, after))
-            for key, text in ref_check(o, now, ev, ok, rep, after):
+            events.append((now, ev, incs))
+            lines.append(obs_line(ok, after, reads))
+            for key, text in ref_check(o, now, ev, ok, rep, after, hi):
                 viols.append((idx, key, text))
             track(s, o, ev, after)
+            count_clock(o, now, hi, reads)
             o = after
             viols += destroy_once(s, idx)
+            now += sum(incs)
     finally:
         s.close()
     return events, lines, viols
 
 
-STATS = {"restores": 0, "restored_then_expired": 0, "restored_then_expired_with_other_live": 0, "loadstate_overwrites": 0}
+STATS = {"requests_with_moving_clock": 0, "deadline_inside_request": 0, "restores": 0, "restored_then_expired": 0, "restored_then_expired_with_other_live": 0, "loadstate_overwrites": 0}
+
+
+def count_clock(before, now, hi, reads):
+    if reads > 1 and hi > now:
+        STATS["requests_with_moving_clock"] += 1
+        STATS["deadline_inside_request"] += sum(1 for _, l, tau, _ in before["live"] if now < l + tau <= hi)
 
 
 def track(s, before, ev, after):
@@ -506,6 +587,20 @@ def fixed_histories():
         [(0, ("create", {"seconds": -3})), (0, ("keepalive", 0)), (0, ("create", {"seconds": 0.5})), (499_999, ("metrics",)), (500_000, ("metrics",)),
          (500_000, ("create", {"microseconds": 2.5})), (500_002, ("fullmetrics",)), (500_002, ("create", {"microseconds": 3.5})),
          (500_005, ("metrics",)), (500_006, ("metrics",))],
+        # the clock advances inside a request (wave 5): the deadline of instance 0 (1000 µs) falls between the timestamp write and
+        # the sweep read of its key -> swept by the request to instance 1 arriving at 999, kept by the one arriving at 998; own access revives
+        [(0, ("create", {"microseconds": 1000})), (0, ("create", {"microseconds": 5000})), (998, ("access", 1, "results"), [1, 1, 1]),
+         (999, ("access", 0, "results"), [1, 1, 1]), (1998, ("access", 1, "results"), [0, 1, 1]), (2500, ("metrics",), [1])],
+        [(0, ("create", {"microseconds": 1000})), (0, ("create", {"microseconds": 5000})), (999, ("access", 1, "results"), [1, 1, 1]),
+         (1100, ("access", 0, "results")), (1200, ("create", {"milliseconds": 1}), [500, 500, 500])],
+        # sub-second timeouts, accesses in the last microseconds of a wall-clock second, the clock crossing the second inside the request
+        [(999_990, ("create", {"milliseconds": 300})), (999_995, ("access", 0, "begin"), [3, 3]), (1_000_001, ("access", 0, "step"), [1, 1]),
+         (1_299_999, ("keepalive", 0), [1, 1]), (1_599_998, ("metrics",), [1]), (1_599_999, ("metrics",), [1]), (1_999_999, ("access", 0, "results"), [1, 1, 1]),
+         (2_299_999, ("fullmetrics",)), (2_300_001, ("fullmetrics",))],
+        [(2_999_999, ("create", {"microseconds": 900})), (2_999_999, ("create", {"milliseconds": 2})), (3_000_500, ("keepalive", 0), [200, 200, 200]),
+         (3_001_390, ("access", 1, "results"), [5, 5, 5]), (3_001_500, ("metrics",))],
+        # a request that lasts longer than the timeout of the instance it addresses
+        [(0, ("create", {"microseconds": 10})), (5, ("access", 0, "results"), [4, 4, 4]), (100, ("create", {"microseconds": 10})), (105, ("keepalive", 1), [20, 20])],
         # every unit
         [(0, ("create", {"weeks": 1})), (0, ("create", {"days": 1})), (0, ("create", {"hours": 1})), (0, ("create", {"minutes": 1})),
          (60 * S - 1, ("metrics",)), (60 * S, ("metrics",)), (3600 * S, ("metrics",)), (86400 * S, ("metrics",)),
@@ -539,7 +634,43 @@ def probe_keepalive_restores():
     return lines[-1].startswith("ok;live=0:")
 
 
-def gen_lean(restores):
+def probe_stamp_exact():
+    """is the stored last-access time the clock reading itself? (creation and timer restart late in a second)"""
+    evs = [(1_500_000, ("create", {"seconds": 5})), (2_999_999, ("access", 0, "results")), (3_999_990, ("keepalive", 0), [3, 3])]
+    lines, _ = run_history(evs)
+    want = ["ok;live=0:1500000:", "ok;live=0:2999999:", "ok;live=0:3999990:"]
+    return all(l.startswith(w) for l, w in zip(lines, want))
+
+
+def probe_reads():
+    """number and position of the datetime.now() reads per endpoint, observed with a clock that advances by
+    1, 10, 100, … after successive reads (the stored timestamp tells which read wrote it)"""
+    P = [1, 10, 100, 1000, 10000]
+    S = 10**9
+    evs = [(0, ("create", {"hours": 1}), P), (S, ("create", {"seconds": 1}), P), (S + 20000, ("access", 1, "begin"), P), (S + 40000, ("access", 1, "step"), P),
+           (S + 60000, ("keepalive", 0), P), (S + 80000, ("metrics",), P), (S + 100000, ("fullmetrics",), P), (S + 120000, ("savestate",), P),
+           (3 * S, ("metrics",), P), (4 * S, ("access", 1, "results"), P), (4 * S + 20000, ("stop", 1), P), (4 * S + 40000, ("access", 1, "results"), P),
+           (4 * S + 60000, ("loadstate",), [])]
+    srv = Server()
+    out = []
+    try:
+        for t, ev, incs in evs:
+            before = {i: l for i, l, _, _ in srv.observe()["live"]}
+            srv.clock.begin(t, incs)
+            srv.do(ev)
+            reads = srv.clock.reads
+            srv.clock.plan = []
+            after = srv.observe()["live"]
+            values = [t + sum(incs[:n]) for n in range(reads)]
+            stamped = {i: values.index(l) for i, l, _, _ in after if l in values and before.get(i) != l}
+            out.append({"event": " ".join(str(x) for x in ev if not isinstance(x, dict)), "live_before": len(before), "reads": reads,
+                        "timestamp_written_by_read": stamped})
+    finally:
+        srv.close()
+    return out
+
+
+def gen_lean(restores, exact=True):
     b = "true" if restores else "false"
     body = ("theorem holds : C17_full cfg := C17_full_of_good cfg (by decide)\n#print axioms holds\n"
             "theorem holds2 : C17_full2 cfg := C17_full2_of_good cfg (by decide)\n#print axioms holds2\n" if restores else
@@ -550,6 +681,10 @@ def gen_lean(restores):
     body += ("theorem destroy_balance (evs : List (Nat × Ev2)) (k : Nat) :\n"
              "    (run2 cfg State.init evs).destroyed.count k + (if hasId (run2 cfg State.init evs) k then 1 else 0)\n"
              "      ≤ incarnations (run2 cfg State.init evs) k := C17_destroyed_at_most_once cfg evs k\n#print axioms destroy_balance\n")
+    x = "true" if exact else "false"
+    body += (f"def cfgR : CfgR := {{ keepAliveRestores := {b}, stampExact := {x} }}\n")
+    body += ("theorem holdsR : C17R_full cfgR := C17R_full_of_good cfgR (by decide)\n#print axioms holdsR\n" if exact else
+             "theorem violatedR : ¬ C17R_full cfgR := C17R_witness_trunc_full cfgR (by decide)\n#print axioms violatedR\n")
     return ("import Bptk.Props.C17\n/-! GENERATED by harness/props/c17.py from /repo on every run — do not edit. -/\n"
             "namespace Bptk.C17.Gen\n"
             f"def cfg : Cfg := {{ keepAliveRestores := {b} }}\n" + body + "end Bptk.C17.Gen\n")
@@ -620,21 +755,23 @@ def run(chk):
     sink = io.StringIO()
     with contextlib.redirect_stdout(sink):
         restores = probe_keepalive_restores()
-    chk.notes["cfg"] = {"keepAliveRestores": restores}
-    ok, why = chk.prove(gen_lean(restores))
+        exact = probe_stamp_exact()
+        chk.notes["clock_reads_per_endpoint"] = probe_reads()
+    chk.notes["cfg"] = {"keepAliveRestores": restores, "stampExact": exact}
+    ok, why = chk.prove(gen_lean(restores, exact))
     chk.cov["trusted_base"] = [
         "Lean 4.33 kernel; axioms propext, Classical.choice, Quot.sound (audited per run via #print axioms)",
         "hand-written model lean/Bptk/Core/C17.lean of InstanceManager (create/get/keep-alive/metrics, _timeout_instances) and of the instance-scoped views' _ensure_instance_exists -> get_instance order; tied to /repo by the correspondence of this check",
-        "controlled clock: the module attribute `datetime` of bptkServer.py and externalStateAdapter.py is replaced by a harness object (datetime.now() fixed during a request, advanced between requests); CPython datetime/timedelta arithmetic is exact integer microsecond arithmetic",
+        "controlled clock: the module attribute `datetime` of bptkServer.py and externalStateAdapter.py is replaced by a harness object that advances between requests AND between the datetime.now() reads of one request (per-request increment plan; the number of reads the real code performs is compared with the model's); CPython datetime/timedelta arithmetic is exact integer microsecond arithmetic",
         "Flask test client instead of a network server; wall-clock behaviour only through the thorough tier's real-time timelines",
     ]
     chk.assumptions = [
-        "requests are sequential (the clock does not advance inside a request); timeouts: any JSON numbers the endpoint accepts — the model runs on max(0, timedelta) in microseconds (clamp_expiry), fractional values in quarters of a unit with timedelta's single half-even rounding (quarterMicros, validated against timedelta)",
+        "requests are sequential; inside a request the clock advances between reads (CfgR / stepR / C17R_*), except during load-state (one read per stored file in directory-listing order: run with a fixed clock); timeouts: any JSON numbers the endpoint accepts — the model runs on max(0, timedelta) in microseconds (clamp_expiry), fractional values in quarters of a unit with timedelta's single half-even rounding (quarterMicros, validated against timedelta)",
         "stop-instance / save-state / load-state are events of the model (Ev2): stop-instance and a load-state overwrite drop the bptk object without destroy() (ghost log `dropped`); the live set is compared by id (dict / directory-listing order after load-state is not modelled)",
         "'resources released' is observed as bptk.destroy() being called on the instance's bptk object",
         "reading: the next *request* to a timed-out externalised instance includes keep-alive (Cfg.keepAliveRestores); restored content is C19/C20's subject, here only presence, timer and timeout",
     ]
-    req, real, ctx = [f"cfg keepAliveRestores {1 if restores else 0}"], ["ok"], [None]
+    req, real, ctx = [f"cfg keepAliveRestores {1 if restores else 0}", f"cfg stampExact {1 if exact else 0}"], ["ok", "ok"], [None, None]
     all_viols = []     # (history index, events, idx, key, text)
     hists = []
     dist = {"events": {}, "units": {}, "ok": 0, "err": 0, "expiries": 0, "restores": 0, "histories": 0}
@@ -665,8 +802,11 @@ def run(chk):
     for hi, (evs, lines, viols) in enumerate(hists):
         req.append("new"); real.append("ok"); ctx.append(None)
         prev_destroyed = 0
-        for j, ((now, ev), ln) in enumerate(zip(evs, lines)):
-            req.append(ev_line(now, ev)); real.append(ln); ctx.append((hi, j))
+        for j, (item, ln) in enumerate(zip(evs, lines)):
+            now, ev, incs = norm(item)
+            req.append(ev_line(now, ev, incs)); real.append(ln); ctx.append((hi, j))
+            if incs:
+                dist["requests_with_increments"] = dist.get("requests_with_increments", 0) + 1
             dist["events"][ev[0]] = dist["events"].get(ev[0], 0) + 1
             if ev[0] == "create":
                 for u, v in ev[1].items():
@@ -679,8 +819,8 @@ def run(chk):
             dist["expiries"] += nd - prev_destroyed
             prev_destroyed = nd
         dist["histories"] += 1
-        chk.case(tuple(ev_line(t, e) for t, e in evs), nontrivial=prev_destroyed > 0,
-                 sample=[ev_line(t, e) for t, e in evs][:12] if hi in (3, 9) else None)
+        chk.case(tuple(ev_line(*norm(x)) for x in evs), nontrivial=prev_destroyed > 0,
+                 sample=[ev_line(*norm(x)) for x in evs][:12] if hi in (3, 9) else None)
         for idx, key, text in viols:
             all_viols.append((hi, evs, idx, key, text))
     model = drive("C17", req)
@@ -693,7 +833,9 @@ def run(chk):
                        "(short-timeout instance externalised next to a long-timeout one, swept, restored by request / keep-alive / load-state, idle past its timeout, "
                        "trigger, metrics, new restore or stop-instance + refused id) — see input_distribution.restored_then_expired_with_other_live; "
                        "over every whole history no bptk object gets destroy() twice; "
-                       "the clock jumps to an expiry boundary (last+timeout-2..+2 µs) in 60% of the steps; after every request the live set with last-access "
+                       "the clock jumps to an expiry boundary (last+timeout-2..+2 µs) in 60% of the steps, to the last microseconds of a wall-clock second in 10%; "
+                       "in 60% of the requests it also advances BETWEEN the datetime.now() reads of the request (all-1 µs increments so that a deadline falls between two "
+                       "particular reads, small random steps, occasionally > 1 s) — input_distribution.requests_with_moving_clock / deadline_inside_request; after every request the live set with last-access "
                        "times, timeouts, session flags, the destroy() log and the external state listing are compared with the model; "
                        "a case is the canonical event list; non-trivial = at least one instance expired")
     chk.cov["exhaustive"] = False
@@ -709,8 +851,8 @@ def run(chk):
             small = shrink(evs[:idx + 1], key)
             _, vv = run_history(small)
         t = next((x[2] for x in vv if x[1] == key), text)
-        chk.add_finding(key, f"history {[ev_line(a, e) for a, e in small]}: {t}",
-                        {"events": [[a, list(e)] for a, e in small], "key": key})
+        chk.add_finding(key, f"history {[ev_line(*norm(x)) for x in small]}: {t}",
+                        {"events": [[x[0], list(x[1]), list(x[2])] for x in map(norm, small)], "key": key})
     if not chk.quick:
         with contextlib.redirect_stdout(sink):
             t = time.time()
@@ -722,6 +864,9 @@ def run(chk):
         chk.add_finding("keep-alive-no-restore", "probe: create {seconds:1}; begin-session; run-step (externalised); metrics at 5 s (timed out); keep-alive at 6 s -> HTTP 500, not restored",
                         {"events": [[0, ["create", {"seconds": 1}]], [1, ["access", 0, "begin"]], [2, ["access", 0, "step"]], [5000000, ["metrics"]], [6000000, ["keepalive", 0]]],
                          "key": "keep-alive-no-restore"})
+    if not exact and not [k for k in seen if k in ("timestamp-before-request", "timer-corrupted", "removed-early")]:
+        chk.add_finding("timestamp-before-request", "probe: create at 1.5 s / session-results at 2.999999 s / keep-alive at 3.99999 s: the stored last-access time is not a clock reading of the request",
+                        {"events": [[1500000, ["create", {"seconds": 5}], []], [2999999, ["access", 0, "results"], []]], "key": "timestamp-before-request"})
     if not ok:
         chk.add_finding("obligation", f"proof obligations of C17 no longer check: {why}",
                         {"theorem": "Bptk.C17.Gen.* / Bptk.Props.C17", "detail": why}, found_input=False)
@@ -730,7 +875,7 @@ def run(chk):
         evs = hists[c[0]][0][:c[1] + 1] if isinstance(c, tuple) and c[0] != "units" else None
         chk.add_finding("correspondence", f"model and implementation disagree at protocol line {diff}: {req[diff]!r}",
                         {"correspondence": "Drive/C17 vs BptkServer under the controlled clock", "line": diff,
-                         "events": [[a, list(e)] for a, e in evs] if evs else c,
+                         "events": [[x[0], list(x[1]), list(x[2])] for x in map(norm, evs)] if evs else c,
                          "model": model[diff] if diff < len(model) else None, "impl": real[diff] if diff < len(real) else None},
                         found_input=False)
 
@@ -741,12 +886,12 @@ def replay(path):
     if "events" not in r or not isinstance(r["events"], list) or r.get("real_time"):
         print("replay file has no timed history:", json.dumps(r)[:600])
         return 1
-    evs = [(a, tuple(e)) for a, e in r["events"]]
+    evs = [norm(x) for x in r["events"]]
     sink = io.StringIO()
     with contextlib.redirect_stdout(sink):
         lines, viols = run_history(evs)
-    for (a, e), ln in zip(evs, lines):
-        print(ev_line(a, e), "->", ln)
+    for x, ln in zip(evs, lines):
+        print(ev_line(*x), "->", ln)
     print("violations of the statement on the current tree:", viols)
     key = r.get("key")
     return 1 if (viols if key is None else [v for v in viols if v[1] == key]) else 0
